@@ -1,0 +1,14 @@
+//go:build !verif
+// +build !verif
+
+package nutsdb
+
+// vfs is the file-mutation observation point used by the verification
+// harness. Without the `verif` build tag it does nothing.
+func vfs(op, path string, off int64, b []byte) error { return nil }
+
+// vfsMap records the path behind a memory mapping (no-op without `verif`).
+func vfsMap(m []byte, path string) {}
+
+// vfsMapPath returns the path behind a memory mapping (empty without `verif`).
+func vfsMapPath(m []byte) string { return "" }
